@@ -14,6 +14,8 @@ package checks
 import (
 	"bufio"
 	"bytes"
+	"errors"
+	"io"
 	"encoding/hex"
 	"fmt"
 	"os"
@@ -2120,6 +2122,91 @@ func (k *c06) raw45(first, second byte, maxLen int) {
 
 // ---------------------------------------------------------------- driver
 
+// ---- an encode that follows a failed encode
+
+type c06FailWriter struct{ left int }
+
+func (w *c06FailWriter) Write(b []byte) (int, error) {
+	if w.left <= 0 {
+		return 0, errors.New("verif: broken pipe")
+	}
+	if len(b) > w.left {
+		n := w.left
+		w.left = 0
+		return n, errors.New("verif: broken pipe")
+	}
+	w.left -= len(b)
+	return len(b), nil
+}
+
+// c06FailedPacks are encodes that end with an error after Pack has started working.
+func c06FailedPacks() []func() string {
+	big := strings.Repeat("S", 3000)
+	return []func() string{
+		func() string {
+			// a field longer than 65535 bytes aborts the encode
+			p := &packets.Connect{Version: packets.Version311, ProtocolName: []byte("MQTT"), ProtocolLevel: 4, ClientID: []byte("c"), UsernameFlag: true, PasswordFlag: true, Username: []byte("u"), Password: []byte(strings.Repeat("P", 65536))}
+			defer func() { recover() }()
+			if err := p.Pack(io.Discard); err != nil {
+				return "CONNECT with a 65536-byte password: " + err.Error()
+			}
+			return ""
+		},
+		func() string {
+			// the connection breaks while a large packet is being written
+			p := &packets.Publish{Version: packets.Version311, TopicName: []byte("t"), Payload: []byte(big)}
+			defer func() { recover() }()
+			if err := p.Pack(&c06FailWriter{left: 1000}); err != nil {
+				return "3000-byte PUBLISH into a writer that breaks after 1000 bytes: " + err.Error()
+			}
+			return ""
+		},
+		func() string {
+			p := &packets.Publish{Version: packets.Version5, TopicName: []byte("t"), Payload: []byte("xyz"), Properties: &packets.Properties{ContentType: []byte("ct")}}
+			defer func() { recover() }()
+			if err := p.Pack(&c06FailWriter{left: 0}); err != nil {
+				return "v5 PUBLISH into a writer that is already broken: " + err.Error()
+			}
+			return ""
+		},
+	}
+}
+
+// packAfterFailure: a well-formed value encodes to the same bytes whatever encode
+// failed just before it (the encoders share pooled buffers).
+func (k *c06) packAfterFailure(idx int, cs c06Case) {
+	g := c06ToGmqtt(cs.P)
+	if g == nil {
+		return
+	}
+	want, err, pan := c06Pack(g)
+	if err != nil || pan != "" {
+		return
+	}
+	want = append([]byte{}, want...)
+	for fi, fail := range c06FailedPacks() {
+		what := fail()
+		if what == "" {
+			k.count("failed_pack_did_not_fail", 1)
+			continue
+		}
+		got, err2, pan2 := c06Pack(g)
+		k.count("pack_after_failed_pack", 1)
+		if pan2 != "" || err2 != nil || !bytes.Equal(got, want) {
+			tn := c06TypeName(cs.P.Type)
+			cas := func() any {
+				return map[string]any{"kind": "pack-after-failed-pack", "corpus_index": idx, "type": tn, "version": cs.P.Version, "label": cs.label, "failed_encode": what, "failed_encode_index": fi}
+			}
+			obs := fmt.Sprintf("%d bytes: %s err=%v %s", len(got), c06Hex(got), err2, firstLines(pan2, 3))
+			k.violate("encode-independent-of-history", fmt.Sprintf("encoding-differs-after-failed-encode-%d", fi), cas, c06Hex(want), obs)
+			// drain whatever the pool still holds so that later cases start clean
+			for i := 0; i < 4; i++ {
+				c06Pack(g)
+			}
+		}
+	}
+}
+
 func c06Replay(c *explore.Ctx, rc map[string]any) {
 	k := newC06(c)
 	k.verb = true
@@ -2182,7 +2269,7 @@ func c06Replay(c *explore.Ctx, rc map[string]any) {
 
 func runC06(c *explore.Ctx) {
 	c.Level = "exploration"
-	c.Rule = "E5 small-scope inputs through gmqtt's pkg/packets with refmqtt as independent codec. (raw) every byte string of length <=3 and every string of length 4 (thorough: 4-5) over {16 type nibbles x flags 0,2,3,F} x {00,01,02,04,7f,80,ff + every property id}, each under reader versions 3.1/3.1.1/5 (5-byte inputs declaring more than 4 MiB are skipped, that shape is the alloc phase); (length) 5-9 byte remaining-length fields and a 64 KiB run of 0x80; (alloc) declared lengths 127..268435455 with 0-8 body bytes, allocation measured with runtime.MemStats.TotalAlloc; (corpus) generated well-formed values of all 15 packet types x 3 versions, every legal property alone at min/typical/boundary values plus all-properties packets: reference-encode -> gmqtt decode -> field equality, gmqtt struct -> Pack -> reference decode, TotalBytes, Message.TotalBytes; (mutation) for corpus packets <=200 bytes all truncations, single deletions, insertions of 00/80/ff and, for packets <= 40 bytes (thorough: 64), all 255 substitutions of every byte, deduplicated per origin; thorough adds all pairs of substitutions over the reduced alphabet for packets <= 20 bytes; (propgrid) every property id single/doubled in each of 14 property hosts; (validators) all strings of length <=5 over {a / + # $ NUL C3 A9 FF EF BF BD} and '$share/'+strings of length <=4. Oracles: no panic; bytes consumed <= declared packet length and == it on success; no packet from incomplete input; remaining length <= 4 bytes; allocation <= 64 KiB + 16 x bytes supplied; accepted => Pack output re-decodes DeepEqual and TotalBytes == length; accept/reject vs reference counted per class (d_acc:/d_rej:) and flagged only for invalid UTF-8, duplicate/misplaced property, reserved flags, wildcard in PUBLISH topic under 3.1.1/5. distinct_nontrivial counts, distinct by construction: raw inputs (bytes,version) the decoder accepted + corpus values (deduplicated by encoding) + property-grid packets + validator strings that are non-empty valid UTF-8; mutants are NOT included (distinct only per origin)."
+	c.Rule = "E5 small-scope inputs through gmqtt's pkg/packets with refmqtt as independent codec. (raw) every byte string of length <=3 and every string of length 4 (thorough: 4-5) over {16 type nibbles x flags 0,2,3,F} x {00,01,02,04,7f,80,ff + every property id}, each under reader versions 3.1/3.1.1/5 (5-byte inputs declaring more than 4 MiB are skipped, that shape is the alloc phase); (length) 5-9 byte remaining-length fields and a 64 KiB run of 0x80; (alloc) declared lengths 127..268435455 with 0-8 body bytes, allocation measured with runtime.MemStats.TotalAlloc; (corpus) generated well-formed values of all 15 packet types x 3 versions, every legal property alone at min/typical/boundary values plus all-properties packets: reference-encode -> gmqtt decode -> field equality, gmqtt struct -> Pack -> reference decode, TotalBytes, Message.TotalBytes; every corpus value is also packed right after each of three failing encodes (over-long field, writer that breaks mid-packet, writer already broken) and must give the same bytes; (mutation) for corpus packets <=200 bytes all truncations, single deletions, insertions of 00/80/ff and, for packets <= 40 bytes (thorough: 64), all 255 substitutions of every byte, deduplicated per origin; thorough adds all pairs of substitutions over the reduced alphabet for packets <= 20 bytes; (propgrid) every property id single/doubled in each of 14 property hosts; (validators) all strings of length <=5 over {a / + # $ NUL C3 A9 FF EF BF BD} and '$share/'+strings of length <=4. Oracles: no panic; bytes consumed <= declared packet length and == it on success; no packet from incomplete input; remaining length <= 4 bytes; allocation <= 64 KiB + 16 x bytes supplied; accepted => Pack output re-decodes DeepEqual and TotalBytes == length; accept/reject vs reference counted per class (d_acc:/d_rej:) and flagged only for invalid UTF-8, duplicate/misplaced property, reserved flags, wildcard in PUBLISH topic under 3.1.1/5. distinct_nontrivial counts, distinct by construction: raw inputs (bytes,version) the decoder accepted + corpus values (deduplicated by encoding) + property-grid packets + validator strings that are non-empty valid UTF-8; mutants are NOT included (distinct only per origin)."
 	c.Trusted = []string{"refmqtt reference codec (written from the OASIS texts, checked against itself on every corpus value)", "runtime.MemStats.TotalAlloc", "reflect.DeepEqual"}
 	c.Assumptions = []string{
 		"an empty topic name accepted by ValidTopicName is not flagged (needed for MQTT 5 topic aliases)",
@@ -2267,6 +2354,14 @@ func runC06(c *explore.Ctx) {
 		}
 	})
 	lap("corpus")
+	units("pack-after-failure", len(corpus), func(u int) {
+		k := newC06(c)
+		if !corpus[u].big {
+			k.packAfterFailure(u, corpus[u])
+		}
+		k.flush()
+	})
+	lap("pack-after-failure")
 	units("propgrid", len(c06Hosts), func(u int) {
 		k := newC06(c)
 		k.propGrid(c06Hosts[u])
